@@ -747,6 +747,46 @@ fn trace_run<K: TestKey>(p: &Params, case: &Case<K>, rep: &mut Report) -> Option
     let labels = trace::labels_by_call(&root_str, &evs);
     let total = labels.keys().next_back().copied().unwrap_or(0);
     let ackinfo = parse_acklog(&ack);
+    // trace policy (C06): nothing under cas/ is ever opened with write intent, written,
+    // truncated or linked; blobs arrive by rename from staging/ and leave by unlink / rename out
+    for e in &evs {
+        if e.ret < 0 {
+            continue;
+        }
+        let bad = match &e.kind {
+            trace::EvKind::Open { flags, path, .. } => {
+                let acc = flags & 3;
+                let write_intent = acc == 1 || acc == 2 || flags & (0o100 | 0o1000 | 0o2000) != 0;
+                (write_intent && trace::path_class(&root_str, path) == "cas" && !path.ends_with("/cas"))
+                    .then(|| format!("open with write intent (flags {flags:#x}) of {path}"))
+            }
+            trace::EvKind::Write { path, len, .. } => (trace::path_class(&root_str, path) == "cas")
+                .then(|| format!("write of {len} bytes to {path}")),
+            trace::EvKind::Trunc { path, len, .. } => (trace::path_class(&root_str, path) == "cas")
+                .then(|| format!("truncate to {len} of {path}")),
+            trace::EvKind::Link { to, .. } => {
+                (trace::path_class(&root_str, to) == "cas").then(|| format!("hard link created at {to}"))
+            }
+            trace::EvKind::Rename { from, to } => {
+                let (cf, ct) = (trace::path_class(&root_str, from), trace::path_class(&root_str, to));
+                (ct == "cas" && cf != "staging" && cf != "cas")
+                    .then(|| format!("rename into cas/ from outside staging/: {from} -> {to}"))
+            }
+            _ => None,
+        };
+        if let Some(b) = bad {
+            rep.violate(
+                Finding::new(
+                    &["C06"],
+                    "a file under cas/ was created or modified in place instead of arriving complete by rename",
+                    "call-trace policy",
+                    b.replace(&root_str, ""),
+                ),
+                replay_json(p, case, 0, "trace policy"),
+            );
+        }
+    }
+    rep.count("trace_policy_events_checked", evs.len() as u64);
     Some(TraceRun { total_calls: total, labels, evs, ack: ackinfo, root_str })
 }
 
